@@ -580,6 +580,13 @@ def gen_pair_model(rng, route="potable", npots=None, reg0=False, depth=2, target
   nr = rng.choice(nr_choices or [3, 4, 5, 8, 11, 21, 50, 101, 200, 400])
   model = {"type": "pair", "target": target, "tab": {"nr": nr, "cutoff": cutoff}, "forms": forms, "tables": tables,
            "pair": [[a, b, gen_node(rng, depth, route, reg0=reg0, forms=forms, tables=tables, rmax=cutoff * rmax_scale(nr))] for a, b in pairs]}
+  if len(model["pair"]) >= 2 and rng.random() < 0.2:
+    # one function serving several species pairs (through the API: one and the same callable object)
+    src = model["pair"][0][2]
+    for ent in model["pair"][1:]:
+      if rng.random() < 0.6:
+        ent[2] = copy.deepcopy(src)
+    model["share_callables"] = True
   return model
 
 
@@ -676,9 +683,17 @@ def gen_eam_model(rng, kind="eam", route="potable", nspecies=None, target=None, 
   if target is None:
     target = {"eam": rng.choice(["setfl", "lammps_eam_alloy", "DL_POLY_EAM", "excel_eam"]),
               "fs": rng.choice(["setfl_fs", "DL_POLY_EAM_fs", "excel_eam_fs"]), "adp": "eam_adp"}[kind]
+  pairs = pair_subset()
+  if rng.random() < 0.25:
+    # pair potentials that name a species which is NOT an EAM element (e.g. the oxygen of an oxide next to
+    # an EAM metal model): they belong to no element pair of the table and must not appear in it
+    outsider = label(rng, used=sp, real=0.5, maxlen=5)
+    for partner in rng.sample(sp + [outsider], rng.randint(1, min(2, len(sp) + 1))):
+      a, b = (outsider, partner) if rng.random() < 0.5 else (partner, outsider)
+      pairs.insert(rng.randint(0, len(pairs)), [a, b, fn()])
   model = {"type": kind, "target": target, "tab": {"nr": nr, "cutoff": cutoff, "nrho": nrho, "cutoff_rho": cutoff_rho},
            "forms": forms, "tables": tables, "species": species, "embed": embed, "density": density,
-           "pair": pair_subset(), "all_species": sp}
+           "pair": pairs, "all_species": sp}
   if kind == "adp":
     model["dipole"] = pair_subset(0.6)
     model["quadrupole"] = pair_subset(0.6)
